@@ -31,6 +31,11 @@ def run(ctx: Ctx, env):
     if STRIPPER not in repo.classes:
         raise AnalysisError("odata_query.rewrite.IdentifierStripper not found")
     ci = repo.classes[STRIPPER]
+    # nodes are found by equality (dict lookup / `==`): structural equality over all fields is a precondition (C16's schema rules)
+    from .c16 import check_node_schema
+    from .c04 import _SubCtx
+    check_node_schema(_SubCtx(ctx, only={"R5.frozen-dataclass", "R5.generated-eq", "R5.no-custom-eq", "R5.field-compares", "R5.constructed-as-declared"},
+                              rename=lambda r: "R0.nodes-compare-structurally-" + r.split(".", 1)[1]), env)
     ctx.check(TRANSFORMER in repo.mro(STRIPPER), "R0.is-transformer", "IdentifierStripper",
               "IdentifierStripper does not derive from NodeTransformer: untouched nodes are no longer rebuilt unchanged",
               ci.module.loc(ci.node))
